@@ -193,6 +193,25 @@ let () =
       Printf.sprintf "tr=%s back=%s" (String.concat "," (List.map hz t)) (String.concat "," (List.map hz (detranspose dim r4 r3 r2 r1 t)))
     | _ -> failwith "tr")
 
+(* ---------------- C12 ---------------- *)
+let () =
+  reg "lz" (fun a -> match a with
+    | [be; level; spec] ->
+      let n = (match String.split_on_char ':' spec with
+          | ["z"; n] -> int_of_string ("0x" ^ n)
+          | [_; _; n] -> int_of_string ("0x" ^ n)
+          | ["x"; l] -> List.length (zlist_of_string l)
+          | _ -> failwith "spec") in
+      let sched = chunk_schedule (z_of_int n) in
+      let last = (match List.rev sched with (av, fin) :: _ -> Printf.sprintf "%s/%b" (hz av) fin | [] -> "-") in
+      let head = if be = "0" then (let (c, f) = zlib_header (z_of_hex level) in Printf.sprintf "%s,%s" (hz c) (hz f)) else "28,b5,2f,fd" in
+      Printf.sprintf "n=%x chunks=%x last=%s head=%s sniff=%s rt=1 dsize_ok=1" n (List.length sched) last head be
+    | _ -> failwith "lz");
+  reg "sniff" (fun a -> match a with
+    | [bytes] -> let b = zlist_of_string bytes in
+      (match sniff starts_with_magic b with Zneg _ -> "sniff=-1" | z -> "sniff=" ^ hz z)
+    | _ -> failwith "sniff")
+
 let () =
   (try
     while true do
